@@ -79,8 +79,9 @@ MANIFEST = {
             "node is not meaning preserving by contract: only correspondence is checked after it.",
 }
 
-REWRITE_OPS = ("simplify", "simplifyup", "simplifyall", "replace", "demorgan", "exchange")
-OUTCOME_OPS = ("simplify", "simplifyall", "replace", "demorgan", "flag", "insert-join",
+REWRITE_OPS = ("simplify", "simplifyup", "simplifyall", "replace", "demorgan", "demorganx",
+               "exchange")
+OUTCOME_OPS = ("simplify", "simplifyall", "replace", "demorgan", "demorganx", "flag", "insert-join",
                "insert-negated", "insert-aliased", "exchange-join", "exchange-aliased")
 UNDEFINED = ("undefined", "out-of-fuel", "error assert", "error fuel")
 MAXK = 12
@@ -294,6 +295,34 @@ def infix_table(s, var, full):
 
 
 # --------------------------------------------------------------------------- the oracle
+def alias_chain_depth(nodes):
+    """longest run of consecutive alias links starting at any node"""
+    best = 0
+    for i, (k, a) in enumerate(nodes):
+        d, j = 0, i
+        while nodes[j][0] == ">" and d <= len(nodes):
+            j = nodes[j][1]
+            d += 1
+            if j >= len(nodes):
+                break
+        best = max(best, d)
+    return best
+
+
+def alias_of_join(nodes):
+    """some alias node's chain ends in a join"""
+    for i, (k, a) in enumerate(nodes):
+        if k != ">":
+            continue
+        d, j = 0, i
+        while j < len(nodes) and nodes[j][0] == ">" and d <= len(nodes):
+            j = nodes[j][1]
+            d += 1
+        if j < len(nodes) and nodes[j][0] in "&|":
+            return True
+    return False
+
+
 class View:
     """State of one script reconstructed from the REAL code's output lines only, and the
     property's predicates evaluated on it.  Also the generator's view of the live tree."""
@@ -309,6 +338,8 @@ class View:
         self.order_violation_clean = False     # ... in a script without raw exchange
         self.changed_rewrites = 0
         self.flag_na = 0         # `simple` answers with a reachable ~(alias)
+        self.dm_depths = []      # max alias-chain depth of the trees given to De Morgan (answer ok)
+        self.dm_errors = {}      # demorganx answers `error <kind>`
         self.raw_exchanges = 0
         self.tainted_cycle = False
         self.tainted_cycle_equiv = False
@@ -458,7 +489,14 @@ class View:
                 # neither the denotations nor acyclicity are promised (only correspondence)
                 self.exchanged = True
                 want = self.spec_table(w[2:])
-                if want is None or ((want ^ self.tab[int(w[1])]) & self.M):
+                if w[2:] in (["true"], ["false"]) and int(w[1]) < len(self.tab):
+                    # declaring a node constant is the constraint replace_and_simplify imposes
+                    # on a literal: from here on only assignments with node = constant count
+                    t_n = self.tab[int(w[1])]
+                    self.M &= t_n if w[2] == "true" else (self.full ^ t_n)
+                    if not self.M:
+                        self.raw_exchanges += 1
+                elif want is None or ((want ^ self.tab[int(w[1])]) & self.M):
                     self.M = 0
                     self.raw_exchanges += 1
             if not self.structure(nodes, vols):
@@ -529,6 +567,8 @@ class View:
                     self.fail("simplify-shape", f"`{op}` changed the tree size or the volumes")
                 self.same_tables(pre_tab, tab, M, "replace-changes-function", f"`{op}`")
         elif name == "demorgan":
+            if not head.startswith("error"):
+                self.dm_depths.append(alias_chain_depth(pre_nodes))
             if head.startswith("error"):
                 self.fail("demorgan-exception", f"transform_negated_joins threw ({head}) on a "
                           "tree satisfying its documented precondition")
@@ -546,6 +586,56 @@ class View:
                 for i, (k, a) in enumerate(nodes):
                     if k == "~" and nodes[a][0] in "&|":
                         self.fail("demorgan-negated-join", f"node {i} still negates join {a}")
+                        break
+        elif name == "demorganx":
+            depth = alias_chain_depth(pre_nodes)
+            if head.startswith("error"):
+                kind = head.split()[1] if len(head.split()) > 1 else "?"
+                self.dm_errors[kind] = self.dm_errors.get(kind, 0) + 1
+                doc_pre = not any(k in ">F" for k, _ in pre_nodes) and not any(
+                    k == "~" and pre_nodes[a][0] == "~" for k, a in pre_nodes[2:])
+                if nodes != pre_nodes or vols != pre_vols:
+                    self.fail("demorgan-exception", f"`{op}` answered {head} and changed the tree")
+                elif doc_pre:
+                    self.fail("demorgan-exception", f"`{op}` answered {head} on a tree satisfying "
+                              "the documented precondition (no alias, no double negation)")
+                elif kind == "crash":
+                    # outside the documented precondition the compiled-out assertions of
+                    # DeMorganSimplifier can fail: a null NodeId reaches CsgTree::insert and the
+                    # release build crashes (the model stops with .error "assert" at that point)
+                    self.fail("demorgan-crash-outside-precondition",
+                              f"`{op}`: transform_negated_joins crashed (a compiled-out assertion "
+                              "failed: null id inserted) on a tree with alias nodes / a negation "
+                              "of an alias of a negation")
+                elif kind == "bad-variant" and alias_of_join(pre_nodes):
+                    # DeMorganSimplifier::add_negation_for_operands calls std::get<Joined> on the
+                    # un-dealiased id: throws when a negation (or a negated join's operand) points
+                    # at an ALIAS of a join.  Pre-existing behaviour of the unchanged code.
+                    self.fail("demorgan-negated-alias-of-join",
+                              f"`{op}`: transform_negated_joins threw std::bad_variant_access "
+                              "(a negated node / negated-join operand is an alias of a join)")
+                else:
+                    self.fail("demorgan-exception", f"`{op}` answered {head}")
+            else:
+                self.dm_depths.append(depth)
+                if len(vols) != len(pre_vols):
+                    self.fail("demorgan-volumes", "transform_negated_joins changed the number "
+                              "of volumes")
+                else:
+                    for i, (a, b) in enumerate(zip(pre_vols, vols)):
+                        self.cmp += 1
+                        if (pre_tab[a] ^ tab[b]) & M:
+                            self.fail("demorgan-changes-function", f"volume {i} (node {a} -> "
+                                      f"{b}) changed its truth table under De Morgan rewriting "
+                                      f"(input tree had alias chains of depth {depth})")
+                            break
+                for i, (k, a) in enumerate(nodes):
+                    if k == "~" and nodes[a][0] in "&|":
+                        self.fail("demorgan-negated-join", f"node {i} still negates join {a}")
+                        break
+                    if k == ">":
+                        self.fail("demorgan-alias-copied", f"node {i} of the transformed tree is "
+                                  f"an alias (->{a}): aliases must be resolved, not copied")
                         break
         elif name == "dump":
             if nodes != pre_nodes or vols != pre_vols:
@@ -873,6 +963,7 @@ class ScriptGen:
         self.rng, self.live, self.deep = rng, live, deep
         self.ops, self.outs, self.dead = [], [], None
         self.build_size = self.build_depth = self.build_nonconst = 0
+        self.chain_family = rng.chance(1, 5)
         r = rng.below(20)
         self.wide = r == 0 or r == 1
         if self.wide:
@@ -887,6 +978,8 @@ class ScriptGen:
         else:
             self.k = (rng.range(2, 6) if r < 11 else rng.range(7, 8) if r < 16 else
                       rng.range(9, 10) if r < 19 else rng.range(11, 12))
+            if self.chain_family and self.k < 5:
+                self.k = rng.range(5, 7)
             self.surf = list(range(self.k))
             self.v = View(("ex", self.k))
         self.use_alias = rng.chance(1, 5)
@@ -1064,6 +1157,131 @@ class ScriptGen:
         if cands:
             self.emit("exchange %d %s" % (n, rng.choice(cands)))
 
+    def ladder(self):
+        """nested joins over shared operands: J2 = op(x1,x2), J3 = op(x1,x2,x3), ...; declaring
+        the last operands constant and simplifying the UPPER joins first dedups each join onto
+        the next lower one: alias chains of depth >= 2 (and, in the other order, none)"""
+        rng, v = self.rng, self.v
+        have = {nd[1] for nd in v.nodes if nd[0] == "S"}
+        for sfc in self.surf:
+            if len(have) >= 6:
+                break
+            if sfc not in have:
+                self.emit("insert surface %d" % sfc)
+                have.add(sfc)
+        leaves = [i for i, nd in enumerate(v.nodes) if i >= 2 and nd[0] in "S~"
+                  and v.tab[i] not in (0, v.full)]
+        rng.shuffle(leaves)
+        xs = []
+        for x in leaves:
+            if all((v.tab[x] ^ v.tab[y]) & v.M and (v.tab[x] ^ v.tab[y] ^ v.full) & v.M
+                   for y in xs):
+                xs.append(x)
+            if len(xs) >= rng.range(4, 6):
+                break
+        if len(xs) < 4:
+            return None
+        op = "and" if rng.chance(2, 3) else "or"
+        rungs = []
+        nested = rng.chance(2, 3)
+        for k in range(2, len(xs) + 1):
+            if nested and rungs:
+                # R_k = op(R_{k-1}, x_k): simplifying R_k first makes it an alias of R_{k-1},
+                # which then becomes an alias of R_{k-2}: a chain; the other order gives none
+                j = self.emit_id("insert join %s %d %d" % (op, rungs[-1], xs[k - 1]))
+            else:
+                j = self.emit_id("insert join %s %s" % (op, " ".join(map(str, xs[:k]))))
+            if j is None:
+                return None
+            rungs.append(j)
+        top = rungs[-1]
+        users = [top]
+        if rng.chance(1, 4):
+            n = self.emit_id("insert negated %d" % top)
+            if n is not None:
+                users.append(n)
+        if rng.chance(1, 2):
+            y = self.pick()
+            j = self.emit_id("insert join %s %d %d" % (rng.choice(["and", "or"]), top, y))
+            if j is not None:
+                users.append(j)
+                if rng.chance(1, 4):
+                    n = self.emit_id("insert negated %d" % j)
+                    if n is not None:
+                        users.append(n)
+        for u in users:
+            if rng.chance(2, 3):
+                self.emit("volume %d" % u)
+        return op, xs, rungs, users
+
+    def chain_scenario(self):
+        """partially simplified trees: constants declared by CsgTree::exchange (or
+        replace_and_simplify) and single-node simplification in both orders, queried by every
+        builder/evaluator BEFORE re-simplification, then handed to transform_negated_joins"""
+        rng, v = self.rng, self.v
+        lad = self.ladder() if rng.chance(3, 4) else None
+        consts = []
+        strict = 3
+        if lad:
+            op, xs, rungs, users = lad
+            neutral = "true" if op == "and" else "false"
+            strict = rng.below(4)          # 0,1: every rung, descending; 2: ascending; 3: loose
+            for x in reversed(xs[2:]):
+                if strict < 3 or rng.chance(5, 6):
+                    self.emit("exchange %d %s" % (x, neutral if strict < 3 or rng.chance(7, 8)
+                                                  else rng.choice(["true", "false"])))
+                    consts.append(x)
+            todo = list(rungs) + [u for u in users if u not in rungs]
+        else:
+            cand = [i for i, nd in enumerate(v.nodes) if i >= 2 and nd[0] in "S&|"]
+            rng.shuffle(cand)
+            for x in cand[:rng.range(1, 3)]:
+                val = "true" if (v.tab[x] & v.M) and rng.chance(2, 3) else "false"
+                self.emit("exchange %d %s" % (x, val))
+                consts.append(x)
+            lo = min(consts) if consts else 2
+            todo = [i for i in range(lo + 1, self.size()) if v.nodes[i][0] in "&|~>"]
+        # (C) constants left without re-simplification: every builder / evaluator sees them
+        for _ in range(rng.range(2, 5)):
+            n = rng.choice(todo) if todo and rng.chance(3, 4) else self.target()
+            k = self.k if not self.wide else rng.range(0, 8)
+            self.emit(rng.choice(["infix %d" % n, "infixof %d" % n, "ttinfix %d %d" % (n, k),
+                                  "tt %d %d" % (n, k), "ttpost %d %d" % (n, k), "flag %d" % n,
+                                  "postfix %d" % n]))
+        mode = rng.below(8)
+        if lad and strict < 3:
+            # both orders of simplification: upper joins first leaves alias chains R_k -> R_{k-1}
+            # -> ... (depth >= 2), lower joins first leaves none
+            for n in sorted(rungs, reverse=(strict < 2)):
+                self.emit("simplify %d" % n)
+            for u in users:
+                if u not in rungs and rng.chance(1, 2):
+                    self.emit("simplify %d" % u)
+        elif mode == 0:
+            pass                                  # leave everything unsimplified
+        elif mode == 1:
+            key = consts[0] if consts else self.target()
+            self.emit("replace %d %s" % (key, rng.choice(["T", "F"])))
+        else:
+            order = sorted(set(todo), reverse=(mode >= 4))       # upper first: chains
+            if mode == 7:
+                rng.shuffle(order)
+            keep = [n for n in order if rng.chance(5, 6)]
+            for n in keep:
+                self.emit("simplify %d" % n)
+            if rng.chance(1, 3):
+                for n in keep[: rng.range(1, 3)]:
+                    self.emit("simplify %d" % n)
+        for _ in range(rng.range(1, 4)):
+            n = self.target()
+            k = self.k if not self.wide else rng.range(0, 8)
+            self.emit(rng.choice(["infix %d" % n, "ttinfix %d %d" % (n, k), "tt %d %d" % (n, k),
+                                  "flag %d" % n, "ttpost %d %d" % (n, k)]))
+        self.emit("demorganx")
+        for vol in self.v.vols[:4]:
+            k = self.k if not self.wide else rng.range(0, 8)
+            self.emit("%s %d %d" % (rng.choice(["tt", "ttpost", "ttinfix"]), vol, k))
+
     def rewrite_step(self):
         rng, v = self.rng, self.v
         if self.size() <= 3:
@@ -1082,7 +1300,8 @@ class ScriptGen:
         elif r < 70:
             self.replace()
         elif r < 77:
-            self.emit("demorgan")
+            self.emit("demorganx" if (v.has_alias() and rng.chance(2, 3)) or rng.chance(1, 8)
+                      else "demorgan")
         elif r < 86:
             self.insert_random()
         elif r < 88:
@@ -1152,6 +1371,15 @@ class ScriptGen:
         self.build_size = self.size()
         self.build_depth = max([self.v.nest_depth(n, memo) for n in self.v.vols] or [0])
         self.build_nonconst = sum(1 for n in self.v.vols if self.v.tab[n] not in (0, self.v.full))
+        if self.chain_family:
+            # scenario family kept in every run (1 script in 5): alias chains for De Morgan and
+            # constants left by exchange without re-simplification
+            self.chain_scenario()
+            for _ in range(rng.range(2, 12)):
+                self.rewrite_step()
+            if rng.chance(1, 2) and self.size() > 3:
+                self.chain_scenario()
+            return self
         if not self.v.has_alias() and rng.chance(2, 5):
             self.emit("demorgan")
         for _ in range(rng.range(8, 50 if self.deep else 32)):
@@ -1272,6 +1500,9 @@ def minimise(exe, ops, key):
 
 
 CONTRADICTS = {
+    "demorgan-alias-copied": "deMorgan_preserves_alias",
+    "demorgan-crash-outside-precondition": "deMorgan_defined (hypothesis DMPre)",
+    "demorgan-negated-alias-of-join": "deMorgan_defined (hypothesis: no alias nodes)",
     "simplify-changes-function": "simplify_preserves / simplifyAll_preserves",
     "exchange-changes-function": "exchange_preserves", "insert-denotation": "insert_preserves",
     "insert-modifies": "insert_preserves", "replace-changes-function": "replaceAndSimplify_sound",
@@ -1299,13 +1530,15 @@ def report_fail(ctx, exe, ops, f, reported):
         _, out = vlib.run_lines([exe], mops, timeout=30)
     except subprocess.TimeoutExpired:
         out = ["<timeout>"]
-    if f["key"] == "flag-negated-alias" and not any(k["key"] == f["key"] for k in ctx.known):
+    if f["key"] in ("flag-negated-alias", "demorgan-negated-alias-of-join",
+                    "demorgan-crash-outside-precondition") \
+            and not any(k["key"] == f["key"] for k in ctx.known):
         # confirmed finding outside the hypothesis NoNegAlias of flagSimple_sound (see
         # corpus/C10/findings/flag-negated-alias.ops): pending the coordinator's decision
         ctx.coverage.setdefault("pending_finding_instances", []).append(
             {"key": f["key"], "ops": mops, "what": mf["what"]})
         print(f"# PENDING-FINDING property=C10 key={f['key']} (generated script, "
-              f"{len(mops)} ops; same defect as corpus/C10/findings/flag-negated-alias.ops)")
+              f"{len(mops)} ops; same defect as corpus/C10/findings/{f['key']}.ops)")
         return
     ctx.violation(f["key"], "real CSG code: " + mf["what"],
                   {"kind": "oracle", "harness": "harness/csg.cc", "key": f["key"], "ops": mops,
@@ -1333,6 +1566,12 @@ def _finding_reproduces(key, out):
     if key == "exchange-cycle":
         m = [a for a, b in re.findall(r" (\d+):>(\d+)", out[-1]) if a == b]
         return bool(m), "self-aliased nodes " + ",".join(m) if m else out[-1][:120]
+    if key == "demorgan-negated-alias-of-join":
+        ok = out[-1].startswith("error bad-variant")
+        return ok, out[-1][:60]
+    if key == "demorgan-crash-outside-precondition":
+        ok = out[-1].startswith("error crash")
+        return ok, out[-1][:60]
     if key in ("simplify-start-order", "replace-order"):
         body = out[-1].split("#")[1].split(" vols")[0] if "#" in out[-1] else ""
         bad = []
@@ -1357,6 +1596,15 @@ FINDING_TEXT = {
                      "a higher node (documented topological order broken by production-API calls "
                      "only; values preserved: reachable_preserves; witness "
                      "replace_twice_breaks_order)",
+    "demorgan-negated-alias-of-join": "transform_negated_joins throws std::bad_variant_access when "
+                                      "a Negated node (or an operand of a negated join) is an "
+                                      "ALIAS of a Joined node: add_negation_for_operands calls "
+                                      "std::get<Joined>(tree_[node_id]) on the un-dealiased id",
+    "demorgan-crash-outside-precondition": "transform_negated_joins crashes (release build: a "
+                                           "compiled-out CELER_ASSERT fails and a null NodeId is "
+                                           "inserted) on a tree with a negation of an alias of a "
+                                           "negation/constant, i.e. outside its documented "
+                                           "precondition",
     "exchange-cycle": "CsgTree::exchange with a logically equivalent node makes a node an alias of "
                       "itself through the swap-with-higher-duplicate branch and a stale dedup key "
                       "(theorem exchange_preserves hypothesis SwapSafe; witness "
@@ -1600,6 +1848,11 @@ def run(ctx):
     ]
 
     exe, log, _ = vlib.build_harness("csg", HARNESS["csg"])
+    if os.environ.get("VERIF_C10_HARNESS"):
+        # validation only: run the check against a harness binary built elsewhere (e.g. with a
+        # scratch mutant of one translation unit linked in); recorded in the evidence
+        exe = os.environ["VERIF_C10_HARNESS"]
+        ctx.coverage["harness_override"] = exe
     if exe is None:
         ctx.violation("harness-build", "harness/csg.cc no longer builds against /repo",
                       {"correspondence": "harness build", "log": log[-2000:]}, found_input=False)
@@ -1685,6 +1938,12 @@ def run(ctx):
             S["infix_defined"] = S.get("infix_defined", 0) + getattr(v, "infix_defined", 0)
             S["infix_undefined"] = S.get("infix_undefined", 0) + getattr(v, "infix_undefined", 0)
             S["max_depth"] = max(S["max_depth"], v.max_depth)
+            for d_ in v.dm_depths:
+                S.setdefault("dm_depths", {})
+                S["dm_depths"][d_] = S["dm_depths"].get(d_, 0) + 1
+            for k_, n_ in v.dm_errors.items():
+                S.setdefault("dm_errors", {})
+                S["dm_errors"][k_] = S["dm_errors"].get(k_, 0) + n_
             if v.flag_na:
                 S["flag_na"] += v.flag_na
                 S["flag_na_sample"] = S["flag_na_sample"] or s[:80]
@@ -1825,6 +2084,11 @@ def run(ctx):
         "cycle_after_explicit_exchange_sample": S["tainted_cycle_sample"],
         "cycles_after_equivalent_exchange_only": S["equiv_cycles"],
         "cycle_after_equivalent_exchange_sample": S["equiv_cycle_sample"],
+        "demorgan_alias_chain_depths": {str(k): v for k, v in sorted(S.get("dm_depths", {}).items())},
+        "demorgan_alias_chain_depth_max": max(S.get("dm_depths", {0: 0})),
+        "demorganx_errors": S.get("dm_errors", {}),
+        "coverage_gaps": (["transform_negated_joins never saw an alias chain of depth >= 2"]
+                          if max(S.get("dm_depths", {0: 0})) < 2 else []),
         "infix_tables_compared": S.get("infix_defined", 0),
         "infix_not_expressible": S.get("infix_undefined", 0),
         "flag_negated_alias_cases": S["flag_na"],
@@ -1846,6 +2110,11 @@ def run(ctx):
 
 def replay(ctx, data):
     exe, log, _ = vlib.build_harness("csg", HARNESS["csg"])
+    if os.environ.get("VERIF_C10_HARNESS"):
+        # validation only: run the check against a harness binary built elsewhere (e.g. with a
+        # scratch mutant of one translation unit linked in); recorded in the evidence
+        exe = os.environ["VERIF_C10_HARNESS"]
+        ctx.coverage["harness_override"] = exe
     r = data["replay"]
     ops = r.get("ops")
     if exe is None or not ops:
